@@ -95,6 +95,21 @@ Hash(f, p, l, out) ==
   /\ Step(Op(f, <<p, l, out>>, IF InMem(p, l) /\ InMem(out, 32) THEN <<"hash">> ELSE <<"trap_or_ooe">>,
              Lin(500, IF f = "hash_sha2_256" THEN 7 ELSE 5, l)), logs, rv)
 
+(* signature checks read three windows: public key (32 / 33 bytes), signature (64) and message (given length / 32); the verdict itself is
+   not specified here (0 or 1), only that every window is checked before anything is read *)
+VerifyEd25519(pk, sig, msg, l) ==
+  /\ Running
+  /\ Step(Op("verify_ed25519_signature", <<pk, sig, msg, l>>, IF InMem(pk, 32) /\ InMem(sig, 64) /\ InMem(msg, l) THEN <<"any01">> ELSE <<"trap_or_ooe">>,
+             IF InMem(pk, 32) /\ InMem(sig, 64) /\ InMem(msg, l) THEN 100000 + 100 * l ELSE 0), logs, rv)
+VerifySecp256k1(pk, sig, msg) ==
+  /\ Running
+  /\ Step(Op("verify_ecdsa_secp256k1_signature", <<pk, sig, msg>>, IF InMem(pk, 33) /\ InMem(sig, 64) /\ InMem(msg, 32) THEN <<"any01">> ELSE <<"trap_or_ooe">>,
+             IF InMem(pk, 33) /\ InMem(sig, 64) /\ InMem(msg, 32) THEN 100000 ELSE 0), logs, rv)
+
+(* memory.grow by a number of pages that can never be granted: fails with -1, memory is unchanged, and the request is charged
+   100 energy per page before anything else (pages as an i32 operand; the charge is computed in the harness in 64 bits) *)
+MemoryGrow(pages) == Running /\ Step(Op("memory.grow", <<pages>>, <<"i", -1>>, 0), logs, rv)
+
 (* state functions taking a key window: on the empty state with a window in memory they find nothing; outside memory they trap (or run out
    of energy first: the charge is a function of the claimed length) *)
 KeyFn(f, p, l) ==
@@ -142,6 +157,9 @@ HNext ==
   \/ \E f \in {"state_entry_read", "state_entry_write", "state_iterator_key_read"}, p \in Ptrs, l \in {0, 1, 65536, 65537, -1}, o \in {0, 1, -1} : HandleFn(f, p, l, o)
   \/ \E tag \in {0, 2, 3, 4, 5, 6, 7, 8, 9, -1}, p \in {0, 1024, 65535, 65536, -1}, l \in {0, 16, 32, 40, 41, 65536} : Invoke(tag, p, l)
   \/ \E plen \in {0, 5, 1024, 1025, 60000}, t \in BOOLEAN : InvokeCall(plen, t)
+  \/ \E pk \in {0, 65504, 65505, -1}, sig \in {1024, 65472, 65473, -1}, msg \in {2048, 65535, 65536, -1}, l \in {0, 1, 40, 65536} : Hostile /\ VerifyEd25519(pk, sig, msg, l)
+  \/ \E pk \in {0, 65503, 65504, -1}, sig \in {1024, 65472, 65473, -1}, msg \in {2048, 65504, 65505, -1} : Hostile /\ VerifySecp256k1(pk, sig, msg)
+  \/ \E pages \in {65536, 42949672, 42949673, 2147483647, -1} : MemoryGrow(pages)
   \/ Finish
 HSpec == HInit /\ [][HNext]_hvars
 
